@@ -833,3 +833,38 @@ def dynamic_scalar_extent(ck, F, rule="SPILL"):
               "spilled stops returning an array, the released block is still treated as its spill and user content typed there is deleted",
               f, l, sample={"pairing": [p[0] for p in pairs]})
     ck.ob(rule, "set_cells_with_result|rebuild-sites", n >= 1, "no Cell::ArrayFormula rebuild that sets ArrayKind::Dynamic was found (anchor lost?)", b.file, b.line)
+
+
+def ref_sheet(ck, F, rule="REF-SHEET"):
+    """A reference is displaced iff it points into the edited sheet: every Reference that `stringify` hands to
+    stringify_reference together with the caller's displace_data carries the node's own sheet_index (both corners of a
+    range).  Only the Wrong* nodes, printed with DisplaceData::None, may use a placeholder index."""
+    NODE = "ironcalc_base::expressions::parser::Node"
+    b = ck.need(F.one, "stringify::stringify")
+    n = 0
+    for bi, t in b.calls_to("stringify::stringify_reference"):
+        if len(t["args"]) < 3:
+            continue
+        dd = sources(b, t["args"][1])
+        displaced = ("param", "displace_data") in dd
+        r = b.trace(t["args"][2])
+        agg = r["rv"] if r["kind"] == "rv" and r["rv"]["k"] == "agg" else None
+        if agg is None:
+            rt = b.ref_target(t["args"][2])
+            if rt is not None and not place_proj(rt):
+                rv = b.def_rvalue(rt["l"])
+                agg = rv if rv is not None and rv["k"] == "agg" else None
+        f, l = b.loc(bi)
+        if agg is None:
+            ck.ob(rule, "stringify|reference-arg@%d" % n, not displaced, "Reference argument of stringify_reference not recognised", f, l)
+            continue
+        ops = dict(zip(agg.get("fields") or [], agg["ops"]))
+        si = sources(b, ops["sheet_index"]) if "sheet_index" in ops else set()
+        n += 1
+        if not displaced:
+            ck.ob(rule, "stringify|undisplaced-reference#%d" % n, True, nontrivial=False)
+            continue
+        ck.ob(rule, "stringify|displaced reference #%d carries the node's sheet" % n, ("field", NODE, "sheet_index") in si and ("const",) not in si,
+              "stringify passes a Reference whose sheet_index comes from %s to stringify_reference together with displace_data: the corner is "
+              "displaced as if it were on sheet 0, whatever sheet the range is on" % sorted(map(str, si)), f, l, sample={"sheet_index_from": sorted(map(str, si))})
+    ck.ob(rule, "stringify|reference-sites", n >= 4, "expected at least 4 stringify_reference call sites in stringify, found %d" % n, b.file, b.line)
